@@ -50,6 +50,8 @@ CONSTANTS
                         \* or wiped out by the reset)
   RestoreMayFail,       \* TRUE: the page of a patched function may refuse to become writable again when the patch is to be
                         \* undone (environment); the guard's destructor panics, nothing is restored or unmapped by it
+  CatchRefusals,        \* TRUE: the caller may catch the panic of a refused or failed installation (catch_unwind around the
+                        \* installing call) and go on using the same injector
   LockByHand,           \* deviation: the lock is released by a statement at the end of the destructor instead of by the
                         \* field's own drop, so a destructor that unwinds keeps it
   ForeignReuse,         \* TRUE: the rest of the process may take over an address the library has given back (a released
@@ -220,6 +222,22 @@ GateRefuse(t) ==
   /\ dropst' = [dropst EXCEPT ![t] = [restored |-> {}, unmapped |-> {}]]
   /\ UNCHANGED <<lock, poisoned, inj, code, orig, tramp, rw, dirty, ctr, fault, inflight>>
 
+\* the same three failures of an installation, caught by the caller: the panic is raised and counted, nothing unwinds past the
+\* installing call, the lifetime goes on with the same injector (a verifier stored before the refusal stays stored)
+CaughtBy(t) ==
+  /\ CatchRefusals /\ ~th[t].panicking
+  /\ th' = [th EXCEPT ![t].pc = "user", ![t].panics = @ + 1]
+  /\ cur' = [cur EXCEPT ![t] = NoCtx]
+GateRefuseCaught(t) ==
+  /\ InInstall(t) /\ ~Done(t, "gate") /\ cur[t].gate \notin {"ok", "abandon"} /\ LinearOk(t, "gate")
+  /\ (cur[t].n >= 0 => Done(t, "verifier"))
+  /\ CaughtBy(t)
+  /\ UNCHANGED <<lock, poisoned, inj, dropst, code, orig, tramp, rw, dirty, ctr, aborted, fault, inflight>>
+AllocFailCaught(t) ==
+  /\ InInstall(t) /\ Done(t, "gate") /\ ~Done(t, "alloc") /\ LinearOk(t, "alloc")
+  /\ CaughtBy(t)
+  /\ UNCHANGED <<lock, poisoned, inj, dropst, code, orig, tramp, rw, dirty, ctr, aborted, fault, inflight>>
+
 Content(t) ==
   IF cur[t].kind = "bool" THEN [kind |-> "bool", v |-> cur[t].fake]
   ELSE [kind |-> "jump", fake |-> cur[t].fake, site |-> cur[t].site, n |-> cur[t].n]
@@ -305,6 +323,12 @@ MprotectFail(t) ==
   /\ cur' = [cur EXCEPT ![t] = NoCtx]
   /\ dropst' = [dropst EXCEPT ![t] = [restored |-> {}, unmapped |-> {}]]
   /\ UNCHANGED <<lock, poisoned, inj, code, orig, rw, dirty, ctr, fault, inflight>>
+
+MprotectFailCaught(t) ==
+  /\ InInstall(t) /\ Done(t, "gate") /\ ~Done(t, "mprot") /\ ~Done(t, "wentry") /\ LinearOk(t, "mprot")
+  /\ CaughtBy(t)
+  /\ tramp' = Orphaned(t)
+  /\ UNCHANGED <<lock, poisoned, inj, dropst, code, orig, rw, dirty, ctr, aborted, fault, inflight>>
 
 Writable(f, n) == \A i \in 1..n : <<f, Page(f, i)>> \in rw
 
@@ -521,6 +545,7 @@ Next ==
             /\ (st # NoSite => \A v \in 1..Len(Verifiers(t)) : Verifiers(t)[v].site # st)
             /\ InstallBegin(t, f, kind, fk, st, n, g)
        \/ PushVerifier(t) \/ GateRefuse(t) \/ (\E s \in PatchSizes : GatePass(t, s))
+       \/ GateRefuseCaught(t) \/ AllocFailCaught(t) \/ MprotectFailCaught(t)
        \/ (\E id \in TrampIds : AllocOk(t, id)) \/ AllocFail(t)
        \/ WriteTramp(t) \/ FlushTramp(t) \/ ReadOrig(t) \/ MprotectOk(t) \/ MprotectFail(t)
        \/ WriteEntry(t) \/ FlushEntryStep(t) \/ PushGuard(t) \/ InstallEnd(t)
